@@ -739,10 +739,11 @@ type apiGen struct {
 	r          *rng
 	openSess   int64 // session with an open transaction, 0 if none
 	nextSess   int64
-	full       bool // full operator grammar for everything (model-free oracles)
-	fullF      bool // full filter grammar (Model/Match.v is merged)
-	fullU      bool // full update grammar (after Model/Apply.v is merged)
-	fullP      bool // projections (after Model/Project.v is merged)
+	full       bool   // full operator grammar for everything (model-free oracles)
+	fullF      bool   // full filter grammar (Model/Match.v is merged)
+	fullU      bool   // full update grammar (after Model/Apply.v is merged)
+	fullP      bool   // projections (after Model/Project.v is merged)
+	uniqField  string // field of the unique index the history starts with ("" if none)
 }
 
 func (g *apiGen) id() interface{} {
@@ -788,7 +789,7 @@ func (g *apiGen) scalar() interface{} {
 }
 
 func (g *apiGen) fieldVal() interface{} {
-	if (g.full || g.fullU) && g.r.chance(1, 6) {
+	if (g.full || g.fullU) && g.r.chance(1, 4) {
 		// arrays of embedded documents / embedded documents (targets of "a.0.q", "a.$[].q", "c.x")
 		if g.r.chance(1, 2) {
 			return bson.A{bson.D{{Key: "q", Value: g.scalar()}}, bson.D{{Key: "q", Value: g.scalar()}, {Key: "r", Value: bson.A{g.scalar()}}}}
@@ -864,7 +865,25 @@ func (g *apiGen) fullFilter(depth int) bson.D {
 
 func (g *apiGen) fullUpdate() bson.D {
 	r := g.r
-	f := pick(r, []string{"a", "b", "c", "_id", "d.e", "a.0", "c.x", "a.0.q", "a.1.r.0", "b.q.1", "a.$[].q", "c.q"})
+	if g.uniqField != "" && r.chance(1, 8) {
+		// shift / swap keys under the unique index (accepted iff the FINAL key set is duplicate-free)
+		return bson.D{{Key: "$inc", Value: bson.D{{Key: g.uniqField, Value: pick(r, []interface{}{int32(1), int32(-1), int64(1)})}}}}
+	}
+	if r.chance(1, 8) {
+		// updates that change some of the matched documents and leave others untouched
+		f := pick(r, []string{"a", "b", "c"})
+		switch r.intn(4) {
+		case 0:
+			return bson.D{{Key: "$unset", Value: bson.D{{Key: f, Value: ""}}}}
+		case 1:
+			return bson.D{{Key: pick(r, []string{"$max", "$min"}), Value: bson.D{{Key: f, Value: int32(r.intn(4) + 1)}}}}
+		case 2:
+			return bson.D{{Key: "$rename", Value: bson.D{{Key: f, Value: pick(r, []string{"z", "b", "c"})}}}}
+		default:
+			return bson.D{{Key: "$addToSet", Value: bson.D{{Key: f, Value: int32(r.intn(3) + 1)}}}}
+		}
+	}
+	f := pick(r, []string{"a", "b", "c", "a", "b", "c", "_id", "d.e", "a.0", "c.x", "a.0.q", "a.0.q", "a.1.r.0", "b.q.1", "a.$[].q", "a.$[].q", "c.q"})
 	var v interface{} = g.scalar()
 	if f == "_id" {
 		v = g.id()
@@ -984,6 +1003,10 @@ func (g *apiGen) sortSpec() string {
 	if r.chance(1, 2) {
 		return "NIL"
 	}
+	if g.uniqField != "" && r.chance(1, 4) {
+		// exactly the key of the (possibly partial) unique index
+		return enc(bson.D{{Key: g.uniqField, Value: pick(r, []interface{}{int32(1), int32(1), int32(-1)})}})
+	}
 	d := bson.D{}
 	for _, k := range []string{"a", "b", "_id"} {
 		if r.chance(1, 2) {
@@ -1080,7 +1103,12 @@ func (g *apiGen) call() string {
 		return "(insertMany " + s + " " + t + " " + tf(r.chance(1, 2)) + " " + strings.Join(parts, " ") + ")"
 	case k < 34:
 		up := r.chance(1, 3)
-		return "(update " + s + " " + t + " " + pick(r, []string{"one", "many"}) + " " + enc(g.filterU(up)) + " " + enc(g.update()) + " " + tf(up) + " ())"
+		mode := pick(r, []string{"one", "many"})
+		flt := g.filterU(up)
+		if mode == "many" && r.chance(1, 3) {
+			flt = bson.D{} // every document: multi-document updates with mixed effects
+		}
+		return "(update " + s + " " + t + " " + mode + " " + enc(flt) + " " + enc(g.update()) + " " + tf(up) + " ())"
 	case k < 40:
 		up := r.chance(1, 3)
 		return "(replace " + s + " " + t + " " + enc(g.filterU(up)) + " " + enc(g.doc(r.chance(1, 3))) + " " + tf(up) + ")"
@@ -1186,6 +1214,7 @@ func genAPIMode(r *rng, full bool) string {
 		}
 		parts = append(parts, "(createIndex 0 "+hx(apiDbs[0])+" "+hx(apiColls[0])+" x "+enc(bson.D{{Key: f, Value: int32(1)}})+" T "+partial+" NIL)")
 		g.knownNames = append(g.knownNames, f+"_1")
+		g.uniqField = f
 	}
 	for i := 0; i < n; i++ {
 		parts = append(parts, g.call())
